@@ -30,11 +30,13 @@ META = {
              "through GetBeacon, whose extracted facts getBeaconServesAllValueTypes=no / getBeaconBuildsRequestedType=no say it serves "
              "only int64/float64/string value types and always builds them as int64 — C11's subject. A ShiftMatching count on a time "
              "index is always 0 (=all in the window): a count that cuts a run of equal timestamps leaves the choice to the sort. "
-             "Stated edges: a negative From reads from the start (pinned statement of GetTreasuresByBeacon; generated); a negative Limit is "
-             "outside the statement; window bounds are arbitrary instants (int64 wrap modelled, far-past / far-future generated), stored "
+             "Stated edges: a negative From reads from the start (pinned statement of GetTreasuresByBeacon; generated); a negative Limit returns nothing "
+             "(GetManyFromOrderPosition's result size; generated); window bounds are arbitrary instants (int64 wrap modelled, far-past / far-future generated), stored "
              "timestamps are what UnixNano makes of the request's (wrap64 in the model; the generator stays inside 1970..1970+9s). Forced "
              "schedules: two first readers (hook beacon.build), a shift that loses a claim between selection and delete (hook "
-             "shift.selected; the general claim race is covered by one closed witness, not by a theorem over all schedules). Not "
+             "shift.selected; the general claim race is covered by one closed witness, not by a theorem over all schedules — that needs the "
+             "`ListSub` invariant of the PatchExpired proof generalised to every index type and every op between select and release, "
+             "more than the time that was left). Not "
              "driven: the other Increment variants and Uint32SlicePush (same SaveFunction path, content types without a value index "
              "of their own), PatchMeta.SetUpdatedAt / SetCreatedAt (server clock)."),
     "design_ref": "§8 C07",
@@ -151,7 +153,7 @@ def expected_attrs(sh, idx, asc, frm, limit, ft, tt):
 def page_verdict(sh, q, keys):
     """None if `keys` is a correct page for q on the shadow store, else a description."""
     idx, asc, frm, limit, ft, tt = q
-    exp = expected_attrs(sh, idx, asc, frm, limit, ft, tt)
+    exp = expected_attrs(sh, idx, asc, frm, limit, ft, tt) if limit >= 0 else []   # a negative Limit asks for nothing
     got = [sh.attr(idx, k) for k in keys]
     if len(set(keys)) != len(keys):
         return "duplicate keys in the page"
@@ -439,6 +441,7 @@ def judge(c):
         stats["by_index"][f[1] + "/" + f[2]] = stats["by_index"].get(f[1] + "/" + f[2], 0) + 1
         stats["windowed"] += 1 if (q[4] is not None or q[5] is not None) else 0
         stats["paged"] += 1 if (q[2] or q[3]) else 0
+        stats["negative_limit"] = stats.get("negative_limit", 0) + (1 if q[3] < 0 else 0)
         if impl.startswith("err noswamp"):
             stats["noswamp"] += 1
         if not impl.startswith("r "):
